@@ -80,14 +80,16 @@ class Run(object):
     pass
 
 
-def run_session(cfg, csv_path, symbols, data_source=None, probe_signals=False, hooks=None, data_handler=None):
+def run_session(cfg, csv_path, symbols, data_source=None, probe_signals=False, hooks=None, data_handler=None,
+                shared=None):
     """
     cfg keys: start, end, rebalance, weekday, long_only, buffer, leverage, fee, cash, burn_in, universe, alpha, adjust.
     Returns a Run with fills, history, equity_curve, allocations, calls, exception info.
     """
     q = load()
     start, end = cal.ts6(cfg['start']), cal.ts6(cfg['end'])
-    universe = build_universe(q, cfg['universe'])
+    shared = shared or {}
+    universe = shared.get('universe') or build_universe(q, cfg['universe'])
     ds = data_source or q.CSVDailyBarDataSource(csv_path, q.Equity, adjust_prices=cfg.get('adjust', True),
                                                 csv_symbols=list(symbols))
     dh = data_handler or q.BacktestDataHandler(universe, data_sources=[ds])
@@ -106,7 +108,9 @@ def run_session(cfg, csv_path, symbols, data_source=None, probe_signals=False, h
         if acfg['kind'] == 'invvol' and 'vol' not in sig:
             sig['vol'] = q.VolatilitySignal(start, universe, [acfg['lookback']])
         signals = q.SignalsCollection(sig, dh)
-    if acfg['kind'] == 'fixed':
+    if acfg['kind'] in ('fixed', 'single') and shared.get('alpha_inner') is not None:
+        alpha = shared['alpha_inner']          # the very object an earlier session used
+    elif acfg['kind'] == 'fixed':
         alpha = q.FixedSignalsAlphaModel(dict(acfg['weights']))
     elif acfg['kind'] == 'single':
         alpha = q.SingleSignalAlphaModel(universe, signal=acfg['signal'])
@@ -131,6 +135,7 @@ def run_session(cfg, csv_path, symbols, data_source=None, probe_signals=False, h
                         except KeyError:
                             out[(name, a, lb)] = 'no_buffer'
             return out
+    inner_alpha = alpha
     alpha = RecordingAlpha(alpha, probe)
     kw = {}
     if cfg['rebalance'] == 'weekly':
@@ -141,6 +146,8 @@ def run_session(cfg, csv_path, symbols, data_source=None, probe_signals=False, h
         kw['gross_leverage'] = cfg['leverage']
     r = Run()
     r.cfg = cfg
+    r.universe = universe
+    r.alpha_inner = inner_alpha if acfg['kind'] in ('fixed', 'single') else None
     r.error = None
     r.fills, r.calls, r.stats = [], alpha.calls, None
     r.alpha = alpha
